@@ -656,12 +656,26 @@ def sequences(tier, geoms, ops, rng):
         for key in sorted(by):
             pick.append(rng.choice(by[key]))
         rng.shuffle(pick)
-        seqs = pick[:46] + draw(10, 2) + draw(8, 3)
-        # the geometries the mutants of bin/selftest need: >= 50 groups sparse (group 49 = 7^2), ss2 with two backups
-        must = [(gi, o) for gi, o in singles if geom_key(geoms[gi]) in ("sparse/bs1024/g256/n50", "ss2_2/bs1024/g256/n10", "none/bs1024/g256/n10", "rsv/bs1024/g1024/n10")
-                and op_key(o[0]) in ("tunefeat:dirindex", "fsck:primfeat", "resize:28", "resize:26", "uuid:A")]
+        seqs = pick[:38] + draw(10, 2) + draw(8, 3)
+        # fixed part: the geometries the mutants of bin/selftest need (>= 50 groups sparse: group 49 = 7^2; no sparse_super;
+        # sparse_super2 with two backups; resize_inode), one element per event kind of Trace_Backups, and the regression
+        # inputs of the three repaired resize2fs defects (replays/C20/fixed_*.json)
+        want = {"sparse/bs1024/g256/n50": ("tunefeat:dirindex", "fsck:primfeat", "resize:28", "uuid:A", "fsck:stalebk", "fsck:freecnt"),
+                "ss2_2/bs1024/g256/n10": ("tunefeat:dirindex", "fsck:primfeat", "resize:26", "uuid:A"),
+                "none/bs1024/g256/n10": ("tunefeat:dirindex", "fsck:primfeat", "resize:28", "uuid:A", "isize:256"),
+                "rsv/bs1024/g1024/n10": ("fsck:primfeat", "resize:26", "uuid:A"),
+                "sparse/bs1024/g8192/n4": ("uuid:A",),
+                "metabg64/bs1024/g256/n34": ("resize64", "resize:50", "tunefeat:csum"),
+                "flex/bs1024/g256/n28": ("fsck:primgd",),
+                "ss2_1/bs1024/g256/n4": ("resize:10",),
+                "ss2_2/bs1024/g256/n2": ("resize:34",),
+                "ss2_2_metabg/bs1024/g256/n50": ("resize:49", "resize:57"),
+                "ss2_2_metabg/bs1024/g256/n2": ("resize:10",)}
+        must = [(gi, o) for gi, o in singles if op_key(o[0]) in want.get(geom_key(geoms[gi]), ())]
+        if len(must) != sum(len(v) for v in want.values()):
+            die_broken("the fixed part of the quick universe is no longer inside Emit_Backups (%d of %d elements found)" % (len(must), sum(len(v) for v in want.values())))
         seqs = must + seqs
-    return seqs, dict(singles=len(singles), pairs=npairs, triples=ntriples)
+    return seqs, dict(singles=len(singles), pairs=npairs, triples=ntriples, fixed_singles_in_quick=(len(must) if tier != "thorough" else 0))
 
 
 def model_check(tier, ev, vd):
@@ -790,6 +804,13 @@ def run(tier):
             for l in r["lines"]:
                 kinds[l["e"]] = kinds.get(l["e"], 0) + 1
         ev.cov["lines_by_event"] = kinds
+        ev.cov["fsck_lines_that_fell_back_to_a_backup"] = sum(1 for r in res for l in r["lines"] if l["e"] == "fsck" and l.get("frombackup") == 1)
+        ev.cov["inconsistent_after_tool"] = sum(1 for r in res if r["info"].get("inconsistent_after"))
+        absent = [k for k in ("mkfs", "resize", "resize64", "tunefeat", "uuid", "isize", "env", "envdata", "envbk", "fsck", "recover", "plain") if not kinds.get(k)]
+        if not ev.cov["fsck_lines_that_fell_back_to_a_backup"]:
+            absent.append("fsck(from backup)")
+        if absent and not vd.viol:
+            die_broken("vacuity: no trace line of kind %s was produced (every action of Trace_Backups must be exercised)" % absent)
         for r in res:
             g = geom_key(r["info"]["geom"])
             last = (r["info"].get("done") or ["mke2fs"])[-1]
@@ -797,7 +818,7 @@ def run(tier):
                 if l["e"] == "recover" and l["g"] != 1:
                     ev.nontrivial((g, last.split(":")[0], l["g"]))
         ev.cov["rule"] = ("universe = Emit_Backups: %d geometries x Ops(geometry)^(<=3) x every prescribed backup location of the final image; "
-                          "quick = one seeded single per (profile, op kind) up to 46 + fixed singles + 10 seeded pairs + 8 seeded triples, at most 5 locations per image "
+                          "quick = 28 fixed singles + one seeded single per (profile, op kind) up to 38 + 10 seeded pairs + 8 seeded triples, at most 5 locations per image "
                           "(first, last, seeded); thorough = all singles + 500 seeded pairs + 400 seeded triples, every location.  evaluations = trace lines decided by TLC; "
                           "non-trivial = (geometry, last tool, location) triples whose location is not group 1" % len(geoms))
         for r in [x for x in res if x["lines"]][:3]:
